@@ -517,6 +517,18 @@ def construct(ex, fv, args, kw, st, node):
         env = {"ballots": kw.get("ballots", VSeq(z3.Empty(S.SeqBallot), S.Ballot)),
                "candidates": kw.get("candidates", VSeq(z3.Empty(S.SeqStr), S.Str))}
         return apply_contract_env(ex, info, env, st, node)
+    # a repository class whose constructor has an ASSUMED contract (listed as trusted): a fresh object with the declared fields,
+    # constrained only by that contract's ensures; requires / raises are checked at the call site as for any callee
+    info = ex.ctx.registry.contracts.get((fv.module, f"{name}.__init__"))
+    decl = info.params.get("self") if info is not None else None
+    if info is not None and info.opts.get("assumed") and isinstance(decl, S.Obj):
+        init = next((m for m in fv.node.body if isinstance(m, ast.FunctionDef) and m.name == "__init__"), None)
+        if init is None:
+            raise OutOfReach(f"constructor {name}: no __init__ in the class body")
+        obj = VObj(name, {f: S.fresh(srt, f"{name}.{f}") for f, srt in decl.fields.items()})
+        env = bind_params(ex, init, [obj] + list(args), kw, st)
+        apply_contract_env(ex, info, env, st, node)
+        return obj
     raise OutOfReach(f"constructor {name}")
 
 
